@@ -134,6 +134,12 @@ def confirms(fail, rr):
     if fail['kind'] == 'exception':
         if exc is not None and exc['type'] == fail['name']:
             return True, {'exception': exc}
+        # the symbolic run stopped in code it cannot execute; the witness of that
+        # path is a concrete input: a claim of the property failing on the real
+        # code there is a reproduced violation as well
+        if bad:
+            return True, {'failed_claim': bad[0]['name'], 'detail': bad[0].get('detail'),
+                          'note': 'symbolic run raised ' + fail['name'] + '; path witness replayed'}
         return False, None
     # engine obligation (division by zero, negative radicand, ...): the
     # property-level consequence must show on the real code
